@@ -50,6 +50,11 @@ theorem made_methods_are_modelled :
     ∧ Gen.Netref.buffiterRequest = ("syncreq", "iter($1)", "HANDLE_BUFFITER", ["$2"]) := by
   exact ⟨rfl, rfl⟩
 
+/-- a made `__call__` / method forwards EVERY keyword argument: none of the candidate names (`self`, `_self`, `args`,
+`kwargs`, `name`, `cls`, ...) is taken by the made function for itself (observed by calling the real made methods
+with each of them) — the model's `wireOf (.call args kwargs)` / `(.method n args kwargs)` forwards all of `kwargs` -/
+theorem made_methods_reserve_no_keyword : Gen.Netref.reservedKeywords = [] := by decide
+
 /-- the handler ids `wireOf` uses are the `HANDLE_*` constants of those names, and the handler table routes each of
 them to the `_handle_*` method `serve` implements, with the arity the model assumes (defaults: `kwargs=()`,
 `op='__cmp__'`) -/
